@@ -116,6 +116,9 @@ class DocstringParser(AbstractDocstringParser):
             constructor_docstring = self.__get_cached_docstring(function_qname)
             if constructor_docstring is not None:
                 matching_parameters = self._get_matching_docstrings(constructor_docstring, parameter_name, "param")
+                if len(matching_parameters) > 0:
+                    # The types of these entries have to be resolved in the docstring they were found in
+                    griffe_docstring = constructor_docstring
 
         if len(matching_parameters) == 0:
             return ParameterDocstring()
